@@ -279,7 +279,7 @@ func runSchedule(t *rapid.T) {
 	byzIdx := consim.SortedKeys(byz)
 	steps := rapid.IntRange(60, 1500).Draw(t, "steps")
 	maxHeights := uint64(rapid.IntRange(1, 3).Draw(t, "heights"))
-	staleFired, equivs, skips, dups, drops, byzProps := 0, 0, 0, 0, 0, 0
+	staleFired, equivs, skips, dups, drops, byzProps, relabels := 0, 0, 0, 0, 0, 0, 0
 	seenIDs := []types.BlockID{{}}
 	notePool := func(from int) {
 		for k := from; k < len(n.Pool); k++ {
@@ -451,6 +451,22 @@ func runSchedule(t *rapid.T) {
 				id = seenIDs[rapid.IntRange(0, len(seenIDs)-1).Draw(t, "seenid")]
 			}
 			v := n.SignedVote(b, typ, rs.Height, r, id)
+			if rapid.IntRange(0, 3).Draw(t, "relabel") == 0 {
+				// ... or it takes a vote SOMEBODY ELSE really signed and relabels it (a prevote offered as a precommit and the other
+				// way round; the signature is the genuine one over the original content): nobody signed what it now says
+				var cands []*types.Vote
+				for _, e := range n.Pool {
+					if vm, ok := e.Msg.(*consensus.VoteMessage); ok && !e.Byz && vm.Vote != nil && vm.Vote.Height == rs.Height && !vm.Vote.BlockID.IsZero() {
+						cands = append(cands, vm.Vote)
+					}
+				}
+				if len(cands) > 0 {
+					cp := *cands[rapid.IntRange(0, len(cands)-1).Draw(t, "relabelled")]
+					cp.Type = types.VoteTypePrevote + types.VoteTypePrecommit - cp.Type
+					v = &cp
+					relabels++
+				}
+			}
 			k := n.Inject(b, &consensus.VoteMessage{Vote: v})
 			equivs++
 			n.Logf("step %d: byzantine validator %d signs %s", s, b, consim.Describe(n.Pool[k].Msg))
@@ -542,6 +558,7 @@ func runSchedule(t *rapid.T) {
 	lab("commit_in_later_round", laterRound > 0)
 	lab("lock_without_commit_in_round", locks > 0)
 	lab("byz_votes", equivs > 0)
+	lab("relabelled_votes", relabels > 0)
 	lab("byz_round_skip_votes", skips > 0)
 	lab("byz_conflicting_proposals", byzProps > 0)
 	lab("stale_timeout_fired", staleFired > 0)
